@@ -224,7 +224,8 @@ def run_shard(ctx):
                 for k in T:
                     for i in range(1, len(k) + 1):
                         pre = k[:i]
-                        if (pre in P and i < len(k)) or (i == len(k) and pre in pd and any(f[: len(pre)] == pre for f in P)):
+                        if (pre in P and i < len(k)) or (i == len(k) and pre in pd and (any(f[: len(pre)] == pre for f in P)
+                                                                                       or any(e[: len(pre)] == pre and e != pre for e in Pe))):
                             blocked.add(k)
             if apply_exc is not None:
                 # an exception after the error callback has been told is loud, not silent: tolerated only
@@ -309,6 +310,7 @@ def run_shard(ctx):
             top2 = top1 + "-second"
             T1 = {(top1, *k): v for k, v in gen.tree(rng, depth=rng.randrange(0, 3), fanout=3, pool_=pool, dup=0.5, odd=0.25, min_files=1, empty_dirs=False)[0].items()}
             T2 = {(top2, *k): v for k, v in gen.tree(rng, depth=rng.randrange(0, 3), fanout=3, pool_=pool, dup=0.5, odd=0.25, min_files=1, empty_dirs=False)[0].items()}
+            T2[(top2, "only-in-second")] = b"second " + gen.small_content(rng)  # the two directories never have the same listing (= the same object)
             link = rng.choice(["copy", "copy", "hardlink", "symlink"])
             um = rng.random() < 0.8
             variant = rng.choice(["entry-added-later", "object-fetched-later"])
